@@ -32,6 +32,7 @@ class TSock:
         self.log = []
         self.closed_at = None
         self.use_after_close = 0
+        self.send_delay = 0.0  # seconds of virtual time every send() call blocks before bytes are taken (slow peer)
         self.send_accept = None  # None: everything | "one": one byte per call | "half": half of what is offered (at least 1)
 
     def __repr__(self):
@@ -174,6 +175,10 @@ class TSock:
         data = bytes(data)
         if self.shut:
             raise BrokenPipeError(_errno.EPIPE, "Broken pipe")
+        if self.send_delay:
+            # a slow peer: the call blocks (virtual time passes, other threads run) before the kernel takes the bytes
+            s.block(lambda: False, s.now + self.send_delay, "send-buffer")
+            self._touch("send")
         if self.send_accept == "one":
             data = data[:1]
         elif self.send_accept == "half":
